@@ -70,10 +70,12 @@ package types
 //@   ensures result1 != nil ==> result0 == nil
 //@   ensures result1 == ErrEquityNotExist ==> !hasEquity(recv, id)
 
+// a nil equity deletes the entry (chain/account.(*Account).SetEquityState); the errors come from the trie and the encoder
 //@ func (AccountAccessor).SetEquityState   trusted
-//@   panics_if equity == nil
 //@   modifies gh("equity", pairkey(recv, id)), gh("hasEquity", pairkey(recv, id))
-//@   ensures result == nil && equity.Equity != nil ==> hasEquity(recv, id) && equityOf(recv, id) == val(equity.Equity)
+//@   ensures result == nil && equity != nil && equity.Equity != nil ==> hasEquity(recv, id) && equityOf(recv, id) == val(equity.Equity)
+//@   ensures result == nil && equity == nil ==> !hasEquity(recv, id)
+//@   ensures result != ErrWrongChangeLogData
 //@   ensures result != nil ==> equityOf(recv, id) == old(equityOf(recv, id)) && hasEquity(recv, id) == old(hasEquity(recv, id))
 
 //@ func (AccountAccessor).GetAssetCode   trusted
